@@ -164,10 +164,10 @@ def cells(tier):
     B = 1 if q else 8
     cs.append(Cell(M, "h_self", dict(kind="date"), budget_s=60 * B))
     cs.append(Cell(M, "h_self", dict(kind="datetime"), budget_s=60 * B))
-    years = REPY[:3] if q else REPY + (1999, 2001, 2100, 2400, 4, 100, 400)
+    years = REPY[:3] if q else REPY + (2100,)
     for kind in ("date", "datetime") + (() if q else ("mixed", "aware")):
-        for y in years:
-            for dy in ((-1, 0, 1) if q else (-2, -1, 0, 1, 2)):
+        for y in (years if kind in ("date", "datetime") else years[:2]):
+            for dy in ((-1, 0, 1) if (q or kind != "date") else (-2, -1, 0, 1, 2)):
                 if not (1 <= y + dy <= 9999):
                     continue
                 if kind == "date":
@@ -178,7 +178,7 @@ def cells(tier):
                     if q:
                         cs.append(Cell(M, "h_diff", dict(kind=kind, span=2, y2c=y, dy=dy, micro=True, md2=[3, 15], sameday=True),
                                        budget_s=280, per_path_s=30))
-                    for md in (((1, 31), (2, 29)) if q else ((1, 31), (2, 28), (2, 29), (3, 15), (12, 31), (1, 1))):
+                    for md in (((1, 31), (2, 29)) if q else ((1, 31), (2, 29), (12, 31))):
                         if md == (2, 29) and not ((y % 4 == 0 and y % 100 != 0) or y % 400 == 0):
                             continue
                         cs.append(Cell(M, "h_diff", dict(kind=kind, span=2, y2c=y, dy=dy, micro=not q, md2=list(md)),
